@@ -43,6 +43,9 @@ def frac(fr: Fraction):
     return f'(- {s})' if fr < 0 else s
 
 
+DIV_AS_INVERSE = True
+
+
 def render_defs(dag, roots, prefix=''):
     """define-funs for the cone of `roots`.  Returns (vars, ufs{name:arity}, defs)."""
     d = dag
@@ -51,6 +54,7 @@ def render_defs(dag, roots, prefix=''):
     decl_vars = []
     ufs = {}
     defs = []
+    inverses = set()
     for n in order:
         op = d.ops[n]
         a = d.args[n]
@@ -70,7 +74,16 @@ def render_defs(dag, roots, prefix=''):
         elif op == 'mul':
             e = f'(* {P}n{a[0]} {P}n{a[1]})'
         elif op == 'div':
-            e = f'(/ {P}n{a[0]} {P}n{a[1]})'
+            if DIV_AS_INVERSE:
+                # a/b = a * inv_b with one shared inverse per denominator, inv_b * b = 1.  Points with
+                # b = 0 are excluded by this encoding: b != 0 is a separate well-definedness obligation.
+                if a[1] not in inverses:
+                    inverses.add(a[1])
+                    defs.append(f'(declare-const {P}inv{a[1]} Real)')
+                    defs.append(f'(assert (= (* {P}inv{a[1]} {P}n{a[1]}) 1.0))')
+                e = f'(* {P}n{a[0]} {P}inv{a[1]})'
+            else:
+                e = f'(/ {P}n{a[0]} {P}n{a[1]})'
         elif op == 'ipow':
             e = '(* ' + ' '.join([f'{P}n{a[0]}'] * a[1]) + ')'
         elif op == 'stop':
@@ -139,77 +152,9 @@ class Script:
         self.asserts.append(s)
 
     def render(self, get_values=(), logic=None):
-        d = self.dag
-        order = d.topo(self.roots + list(get_values))
-        lines = []
-        decl_vars = []
-        ufs = {}
-        defs = []
-        for n in order:
-            op = d.ops[n]
-            a = d.args[n]
-            if op == 'var':
-                decl_vars.append(a[0])
-                defs.append(f'(define-fun n{n} () Real {sym(a[0])})')
-                continue
-            if op == 'const':
-                defs.append(f'(define-fun n{n} () Real {frac(a[0])})')
-                continue
-            if op == 'bconst':
-                defs.append(f"(define-fun n{n} () Bool {'true' if a[0] else 'false'})")
-                continue
-            sort = 'Real'
-            if op == 'add':
-                e = f'(+ n{a[0]} n{a[1]})'
-            elif op == 'mul':
-                e = f'(* n{a[0]} n{a[1]})'
-            elif op == 'div':
-                e = f'(/ n{a[0]} n{a[1]})'
-            elif op == 'ipow':
-                e = '(* ' + ' '.join([f'n{a[0]}'] * a[1]) + ')'
-            elif op == 'stop':
-                e = f'n{a[0]}'
-            elif op == 'ite':
-                e = f'(ite n{a[0]} n{a[1]} n{a[2]})'
-            elif op == 'uf':
-                name = a[0]
-                ufs[name] = len(a) - 1
-                e = f"({sym('uf_' + name)} " + ' '.join(f'n{x}' for x in a[1:]) + ')'
-            else:
-                sort = 'Bool'
-                if op == 'le':
-                    e = f'(<= n{a[0]} n{a[1]})'
-                elif op == 'lt':
-                    e = f'(< n{a[0]} n{a[1]})'
-                elif op == 'eq':
-                    e = f'(= n{a[0]} n{a[1]})'
-                elif op == 'and':
-                    e = '(and ' + ' '.join(f'n{c}' for c in a) + ')'
-                elif op == 'or':
-                    e = '(or ' + ' '.join(f'n{c}' for c in a) + ')'
-                elif op == 'not':
-                    e = f'(not n{a[0]})'
-                else:
-                    raise EngineError(op)
-            defs.append(f'(define-fun n{n} () {sort} {e})')
-        if logic is None:
-            logic = 'QF_UFNRA' if ufs else 'QF_NRA'
-        lines.append(f'(set-logic {logic})')
-        for v in decl_vars:
-            lines.append(f'(declare-const {sym(v)} Real)')
-        for name, ar in sorted(ufs.items()):
-            lines.append(
-                f"(declare-fun {sym('uf_' + name)} ({' '.join(['Real'] * ar)}) Real)"
-            )
-        lines.extend(self.extra_decls)
-        lines.extend(defs)
-        for s in self.asserts:
-            lines.append(f'(assert {s})')
-        lines.append('(check-sat)')
-        gv = [f'n{n}' for n in get_values]
-        if gv:
-            lines.append('(get-value (' + ' '.join(gv) + '))')
-        return '\n'.join(lines) + '\n'
+        vs, ufs, defs = render_defs(self.dag, self.roots + list(get_values), '')
+        body = list(self.extra_decls) + defs + [f'(assert {a})' for a in self.asserts]
+        return assemble(vs, ufs, body, [f'n{n}' for n in get_values], logic)
 
 
 # ------------------------------------------------------------------ parsing
